@@ -259,6 +259,22 @@ func cmdCheck(args []string) int {
 			}
 			if ob.Res.Status != "unsat" {
 				atomic.AddInt32(&nFailed, 1)
+			} else if out.Tier == "thorough" && ob.Res.Solver != "trivial" {
+				// cross-check: every other solver family decides the same script on its own; a "sat" from any
+				// of them is a disagreement and the obligation no longer counts as discharged
+				for _, si := range []int{0, 1, 2} {
+					if strings.HasPrefix(ob.Res.Solver, solvers[si].name) {
+						continue
+					}
+					r := solveWith(script, 20, []int{si})
+					ob.Cross = append(ob.Cross, r)
+					if r.Status == "sat" {
+						ob.Res = SolverResult{Status: "disagreement", Solver: ob.Res.Solver + " vs " + r.Solver, Seconds: ob.Res.Seconds + r.Seconds,
+							Output: "solver disagreement: " + ob.Res.Solver + " answered unsat, " + r.Solver + " answered sat\n" + r.Output}
+						atomic.AddInt32(&nFailed, 1)
+						break
+					}
+				}
 			}
 		}(j)
 	}
@@ -367,6 +383,7 @@ func report(out *propOutcome, verbose bool) int {
 		"solver_seconds":           round3(solverSeconds),
 		"covers_checked":           covers,
 		"covers_vacuous":           vacuous,
+		"cross_check":              crossSummary(out),
 		"samples":                  samples,
 		"known_findings":           knownLines,
 		"undecided":                out.Undecided,
@@ -532,4 +549,37 @@ func modelInputs(output string, vc *VC) map[string]string {
 		}
 	}
 	return res
+}
+
+// crossSummary: thorough tier only - how many discharged obligations were re-decided by another solver family.
+func crossSummary(out *propOutcome) map[string]any {
+	if out.Tier != "thorough" {
+		return map[string]any{"enabled": false, "note": "quick tier: first definitive answer of the portfolio wins"}
+	}
+	checked, confirmed, disagreements := 0, 0, 0
+	by := map[string]int{}
+	for _, fr := range out.Funcs {
+		for _, ob := range fr.obs {
+			if ob.Cover || len(ob.Cross) == 0 {
+				continue
+			}
+			checked++
+			ok := false
+			for _, r := range ob.Cross {
+				if r.Status == "unsat" {
+					ok = true
+					by[r.Solver]++
+				}
+				if r.Status == "sat" {
+					disagreements++
+				}
+			}
+			if ok {
+				confirmed++
+			}
+		}
+	}
+	return map[string]any{"enabled": true, "obligations_rechecked": checked, "confirmed_by_a_second_solver_family": confirmed,
+		"confirmations_by_backend": by, "disagreements": disagreements,
+		"note": "each other solver family (z3 5.1.0, z3 4.8.12, cvc5 1.0.3) re-decides the script alone, 20 s; a timeout is not a disagreement"}
 }
